@@ -97,6 +97,8 @@ DEFAULT_PROFILE: dict[str, Any] = {
     "cookie_nonstring": False,      # C03 finding
     "text_responses": True,
     "security": True,
+    "multi_body_multipart": False,  # C03 finding: multipart next to another media type loses its boundary
+    "multi_body_array": False,      # C03 finding: isinstance(body, list[...]) in the multi-body dispatch raises TypeError
     "multipart_const": False,       # C06 finding: const property inside a multipart body model crashes rendering
 }
 
@@ -398,6 +400,14 @@ def operation(draw, prof, comp_names, obj_names, opword: str, used_paths: set):
         params.append({"name": wire, "in": loc, "required": draw(st.booleans()),
                        "schema": draw(param_schema(prof, loc, comp_names)),
                        "level": draw(st.sampled_from(["op", "op", "op", "path"]))})
+    # the same wire name in a second location (the generator must keep both apart), at either level
+    others = [p for p in params if p["in"] in ("query", "cookie")]
+    if others and prof.get("same_name_locations", True) and draw(st.integers(0, 3)) == 0:
+        src = draw(st.sampled_from(others))
+        loc2 = draw(st.sampled_from([l for l in ("query", "header", "cookie") if l != src["in"]]))
+        params.append({"name": src["name"], "in": loc2, "required": draw(st.booleans()),
+                       "schema": draw(param_schema(prof, loc2, comp_names)),
+                       "level": draw(st.sampled_from(["op", "path"]))})
     body = None
     if prof["bodies"] and method in ("post", "put", "patch", "delete") and draw(st.booleans()):
         body = draw(body_ir(prof, comp_names, obj_names))
@@ -422,6 +432,8 @@ def body_ir(draw, prof, comp_names, obj_names):
     if prof["octet"]:
         kinds.append("octet")
     chosen = draw(st.lists(st.sampled_from(kinds), min_size=1, max_size=2, unique=True))
+    if len(chosen) > 1 and "multipart" in chosen and not prof.get("multi_body_multipart"):
+        chosen = [c for c in chosen if c != "multipart"]
     content = []
     for kd in chosen:
         if kd == "json":
@@ -430,6 +442,12 @@ def body_ir(draw, prof, comp_names, obj_names):
             if sch["k"] in ("any",):
                 sch = {"k": "str"}
             sch.pop("nullable", None)
+            if len(chosen) > 1 and not prof.get("multi_body_array"):
+                if sch["k"] == "array":
+                    sch = sch["items"] if sch["items"]["k"] not in ("array", "any", "union") else {"k": "str"}
+                    sch.pop("nullable", None)
+                if sch["k"] == "enum" or (sch["k"] == "ref" and sch["name"] not in obj_names):
+                    sch = {"k": "str"}  # a Literal[...] alias is a subscripted generic too (literal_enums)
             content.append([mt, sch])
         elif kd == "form":
             content.append(["application/x-www-form-urlencoded", draw(flat_object(prof))])
